@@ -141,16 +141,24 @@ def program(cases):
 def expected_from_lean(ck, cases):
     """AST from the real parser (in process), then the specification's frontier."""
     outs = ck.rt_batch(["run " + hexs(c.text) for c in cases], binary="inproc", harness="inproc")
+    # The specification reads the pattern with the MODEL parser (Parse.lean over the token tree, syn's answers as
+    # oracle), not with the implementation's: a change to the real parser must not move the specification with it.
+    dumps = ck.rt_batch(["ptoks " + hexs(c.text) for c in cases], binary="inproc", harness="inproc")
+    mparse = ck.lean_batch(["parse\t" + d if d != "lexerr" else "parse\t(ts)\t(oracle)" for d in dumps]) if cases else []
     reqs, idx = [], []
-    for c, o in zip(cases, outs):
+    for c, o, mp in zip(cases, outs, mparse):
         f = o.split("\t")
+        g = mp.split("\t")
         c.parse = f[0]
         if f[0] != "ok":
-            c.expect = ("parse-" + f[0], [])
             c.parse_msg = unhexs(f[1]) if f[0] == "err" and len(f) > 1 else f[0]
+        if g[0] != "accept":
+            # outside the pattern language (the grammar rejects it): nothing to specify
+            c.expect = ("parse-" + (f[0] if f[0] != "ok" else "model-reject"), [])
             continue
-        c.ast = f[1]
-        reqs.append("frontier\t%s\t%s\t%s\tnojoin" % (f[1], c.value_sexp, c.meanings))
+        c.ast = g[3]
+        c.ast_from_impl = f[1] if f[0] == "ok" else None
+        reqs.append("frontier\t%s\t%s\t%s\tnojoin" % (c.ast, c.value_sexp, c.meanings))
         idx.append(c)
     res = ck.lean_batch(reqs) if reqs else []
     for c, r in zip(idx, res):
